@@ -515,7 +515,7 @@ pub fn run_case(env: &Env, c: &Case, scope: Scope) -> CaseResult {
     // ---- execute
     let own = unsafe { (libc::getuid(), libc::getgid()) };
     let set_ids = if env.root { c.ids } else { None };
-    let run_ids = set_ids.unwrap_or(own);
+    let mut run_ids = set_ids.unwrap_or(own);
     rep.class_if(set_ids.is_some(), "runs-as-other-uid-gid");
     rep.class_if(run_ids.0 != run_ids.1, "uid-differs-from-gid");
     let mut fails: Vec<Failure> = Vec::new();
@@ -540,7 +540,13 @@ pub fn run_case(env: &Env, c: &Case, scope: Scope) -> CaseResult {
             }
             rep.class("relocation-slots-inspected");
         }
-        let o = match launch::run(&path, &argv, &envp, &stdin, Duration::from_secs(20), set_ids) {
+        let mut launched = launch::run(&path, &argv, &envp, &stdin, Duration::from_secs(20), set_ids);
+        if launched.is_err() && set_ids.is_some() {
+            // e.g. an id that is not mapped in this user namespace: run it with the inherited ids instead
+            launched = launch::run(&path, &argv, &envp, &stdin, Duration::from_secs(20), None);
+            run_ids = own;
+        }
+        let o = match launched {
             Ok(o) => o,
             Err(launch::LaunchError::Spawn(errno, what)) => {
                 eprintln!("[C07] {what} of {path} failed with errno {errno}: case skipped");
